@@ -78,6 +78,10 @@ def work(item, opts):
         a = canon(vars(used))
         b = canon(vars(fresh))
         armed = {k for k in a if k not in IGNORED_FIELDS and (k not in b or dumps(a[k]) != dumps(b[k]))}
+        # a field that merely holds a reference to a caller's object (task, configuration, variable) is a memo key, not
+        # adaptive state: reading it to decide whether a cache is still valid is not a leak
+        from pyvolutionary.models import Task as _Task, BaseOptimizationConfig as _Cfg, Variable as _Var
+        armed = {k for k in armed if not isinstance(vars(used).get(k), (_Task, _Cfg, _Var)) or k == "_config"}
         out["armed"] = sorted(armed)
         mon = hooks.Monitor(attr=True)
         mon.armed = armed
